@@ -201,7 +201,12 @@ def split_obligation(name):
                       doc="UNBOUNDED in the number of rows: load profiles monotone, zero at the pinch side, Qh / Qc at the far ends (induction)")
 
 
-def ob_content_rows(h):
+def ob_content_rows_cp(h):
+    """as ob_content_rows with SYMBOLIC heat-capacity flow rates (products of two unknowns in the induction step)"""
+    return ob_content_rows(h, symbolic_cp=True)
+
+
+def ob_content_rows(h, symbolic_cp=False):
     """_sum_mcp_between_temperature_boundaries + problem_table_algorithm on a grid of ANY number of rows that contains the shifted bounds
     of 1..2 symbolic hot streams (and arbitrary other rows): the hot composite at every row is the exact heat content of the streams
     below that row's temperature."""
@@ -224,7 +229,11 @@ def ob_content_rows(h):
     streams, lo, hi, cps, facts = [], [], [], [], [SymBool(n >= 2)]
     for s in range(m):
         tmax, tmin, dt = h.real(f"s{s}_t_supply"), h.real(f"s{s}_t_target"), h.real(f"s{s}_dt", lo=0)
-        cp = h.choice(f"s{s}_cp", [1.0, 3.0])
+        if symbolic_cp:
+            cp = h.real(f"s{s}_cp")
+            h.assume(cp > 0)
+        else:
+            cp = h.choice(f"s{s}_cp", [1.0, 3.0])
         h.assume(tmax - tmin > 1e-5)
         st = Stream(f"s{s}", tmax, tmin, dt_cont=dt, heat_flow=cp * (tmax - tmin), htc=1.0) if side == "hot" else \
             Stream(f"s{s}", tmin, tmax, dt_cont=dt, heat_flow=cp * (tmax - tmin), htc=1.0)
@@ -283,6 +292,14 @@ def sym_min(a, b):
 def sym_max0(a):
     from pvc.sym import smax
     return smax(a, 0.0)
+
+
+def content_cp_obligation(name):
+    o = content_obligation(name)
+    o.fn = ob_content_rows_cp
+    o.tier = "thorough"
+    o.bound = "UNBOUNDED in rows; one stream (hot or cold) with symbolic temperatures, contribution AND heat-capacity flow rate"
+    return o
 
 
 def content_obligation(name):
